@@ -58,10 +58,10 @@ fn item<C: Suite>(ctx: &mut Ctx, n: u16, t: u16, source: &str, kind: &str) {
     let mut refreshed = false;
     if source == "refreshed" {
         let rem = grp.ids.clone();
-        if let Ok((shares, newp)) = refresh::compute_refreshing_shares::<C, _>(grp.pkp.clone(), &rem, &mut rng) {
+        if let Ok((shares, newp)) = C::api_compute_refreshing_shares(grp.pkp.clone(), &rem, &mut rng) {
             let mut kps = BTreeMap::new();
             for (id, sh) in rem.iter().zip(shares) {
-                match refresh::refresh_share::<C>(sh, &grp.kps[id]) {
+                match C::api_refresh_share(sh, &grp.kps[id]) {
                     Ok(kp) => {
                         kps.insert(*id, kp);
                     }
@@ -109,7 +109,7 @@ fn item<C: Suite>(ctx: &mut Ctx, n: u16, t: u16, source: &str, kind: &str) {
                 let hx: Vec<Sc<C>> = helpers.iter().map(id_sc::<C>).collect();
                 let mut failed = false;
                 for (hi, h) in helpers.iter().enumerate() {
-                    match repairable::repair_share_part1::<C, _>(&helpers, &grp.kps[h], &mut rng, pid) {
+                    match C::api_repair_part1(&helpers, &grp.kps[h], &mut rng, pid) {
                         Ok(deltas) => {
                             let keys: Vec<_> = deltas.keys().copied().collect();
                             let mut want = helpers.clone();
@@ -140,14 +140,25 @@ fn item<C: Suite>(ctx: &mut Ctx, n: u16, t: u16, source: &str, kind: &str) {
                 if failed {
                     continue;
                 }
-                let sigmas: Vec<Sigma<C>> = helpers.iter().map(|h| repairable::repair_share_part2::<C>(&inbox[h])).collect();
-                let kp = match repairable::repair_share_part3::<C>(&sigmas, pid, &grp.pkp) {
+                let sigmas: Vec<Sigma<C>> = helpers.iter().map(|h| C::api_repair_part2(&inbox[h])).collect();
+                let kp = match C::api_repair_part3(&sigmas, pid, &grp.pkp) {
                     Ok(k) => k,
                     Err(e) => {
                         ctx.viol("valid-repair-refused", "part3", d("repair_share_part3 failed", json!({"err": format!("{e:?}")})));
                         continue;
                     }
                 };
+                // with a public key package that does not record the threshold (pre-3.0 form) the participant cannot learn
+                // it: part 3 must refuse, or at least never hand out a key package with another threshold
+                let legacy = PublicKeyPackage::new(grp.pkp.verifying_shares().clone(), *grp.pkp.verifying_key(), None);
+                match C::api_repair_part3(&sigmas, pid, &legacy) {
+                    Err(e) => ctx.count(&format!("legacy-package/{}", err_name(&e))),
+                    Ok(k2) => {
+                        if *k2.min_signers() != t {
+                            ctx.viol("repair-output-inconsistent", "threshold-from-legacy-package", d("repair with a public key package lacking the threshold returned a key package with another threshold", json!({"min_signers": k2.min_signers()})));
+                        }
+                    }
+                }
                 let s = kp.signing_share().to_scalar();
                 // the group polynomial at the participant's identifier
                 let want = match pix {
@@ -198,7 +209,7 @@ fn item<C: Suite>(ctx: &mut Ctx, n: u16, t: u16, source: &str, kind: &str) {
         let d = |what: &str| json!({"what": what, "n": n, "t": t, "participant": id_hex::<C>(&pid)});
         if tt >= 2 {
             let few: Vec<_> = pool_ids.iter().take(tt - 1).copied().collect();
-            match repairable::repair_share_part1::<C, _>(&few, &grp.kps[&caller], &mut rng, pid) {
+            match C::api_repair_part1(&few, &grp.kps[&caller], &mut rng, pid) {
                 Err(e) => ctx.count(&format!("refused/too-few/{}", err_name(&e))),
                 Ok(_) => ctx.viol("bad-helper-list-accepted", "too-few", d("fewer than t helpers accepted")),
             }
@@ -210,14 +221,14 @@ fn item<C: Suite>(ctx: &mut Ctx, n: u16, t: u16, source: &str, kind: &str) {
             let l = dup.len();
             if l >= 2 {
                 dup[l - 1] = dup[0];
-                match repairable::repair_share_part1::<C, _>(&dup, &grp.kps[&caller], &mut rng, pid) {
+                match C::api_repair_part1(&dup, &grp.kps[&caller], &mut rng, pid) {
                     Err(e) => ctx.count(&format!("refused/duplicate/{}", err_name(&e))),
                     Ok(_) => ctx.viol("bad-helper-list-accepted", "duplicate", d("helper list with a duplicate accepted")),
                 }
             }
             let mut dup2: Vec<_> = pool_ids.iter().take(tt).copied().collect();
             dup2.push(dup2[tt - 1]);
-            match repairable::repair_share_part1::<C, _>(&dup2, &grp.kps[&caller], &mut rng, pid) {
+            match C::api_repair_part1(&dup2, &grp.kps[&caller], &mut rng, pid) {
                 Err(e) => ctx.count(&format!("refused/duplicate-extra/{}", err_name(&e))),
                 Ok(_) => ctx.viol("bad-helper-list-accepted", "duplicate-extra", d("helper list of t distinct + one repeated accepted")),
             }
@@ -225,7 +236,7 @@ fn item<C: Suite>(ctx: &mut Ctx, n: u16, t: u16, source: &str, kind: &str) {
         }
         if pool_ids.len() > tt {
             let without: Vec<_> = pool_ids.iter().skip(1).take(tt).copied().collect();
-            match repairable::repair_share_part1::<C, _>(&without, &grp.kps[&caller], &mut rng, pid) {
+            match C::api_repair_part1(&without, &grp.kps[&caller], &mut rng, pid) {
                 Err(e) => ctx.count(&format!("refused/caller-omitted/{}", err_name(&e))),
                 Ok(_) => ctx.viol("bad-helper-list-accepted", "caller-omitted", d("helper list omitting the calling helper accepted")),
             }
